@@ -128,6 +128,7 @@ type Frame struct {
 	params     []Term
 	localRoots []Term
 	defers     []deferred
+	recoverGuards []Term // reach conditions of the defers installed so far whose function calls recover()
 	loops      map[*ssa.BasicBlock]*loopInfo
 	iters      map[ssa.Value]*iterInfo
 	freeVars   map[*ssa.FreeVar]Term
@@ -148,11 +149,17 @@ func (vc *VC) warn(f string, a ...interface{}) {
 	vc.warnings = append(vc.warnings, fmt.Sprintf(f, a...))
 }
 
-var panicKinds = map[string]bool{"bounds": true, "nil": true, "div0": true, "makeslice": true, "typeassert": true}
+var panicKinds = map[string]bool{"bounds": true, "nil": true, "div0": true, "makeslice": true, "typeassert": true, "panic": true}
 
 func (vc *VC) addObl(fr *Frame, st *State, kind, detail string, goal Term, clause *Clause, pos token.Pos) *Obligation {
 	if goal.S == "true" {
 		return nil
+	}
+	if panicKinds[kind] && fr != nil && vc.safety {
+		// a panic below an installed recover() is contained: the obligation is that the operation is safe OR guarded
+		if g := vc.recoverGuard(fr); g.S != "false" {
+			goal = Or(goal, g)
+		}
 	}
 	if panicKinds[kind] || kind == "within-len" {
 		// run-time checks of Go itself: an obligation only where safety is under contract; in any
@@ -164,7 +171,9 @@ func (vc *VC) addObl(fr *Frame, st *State, kind, detail string, goal Term, claus
 			return nil
 		}
 		defer func() {
-			if panicKinds[kind] {
+			// execution continues past a run-time check only if it passed (not for a callee that may panic:
+			// returning from it says nothing about the state)
+			if panicKinds[kind] && kind != "panic" {
 				vc.q.Assert(Implies(st.reach, goal))
 			}
 		}()
@@ -1078,4 +1087,34 @@ func fieldChainOf(addr ssa.Value, body map[*ssa.BasicBlock]bool) (ssa.Value, []i
 		}
 	}
 	return nil, nil, false
+}
+
+// recoverGuard: the condition under which a deferred function that calls recover() is installed on the current path,
+// in this frame or in a frame it is inlined into (a panic unwinds to the nearest of them).
+func (vc *VC) recoverGuard(fr *Frame) Term {
+	var gs []Term
+	for f := fr; f != nil; f = f.parent {
+		gs = append(gs, f.recoverGuards...)
+	}
+	if len(gs) == 0 {
+		return False
+	}
+	return Or(gs...)
+}
+
+// callsRecover reports whether fn's body calls the builtin recover (directly).
+func callsRecover(fn *ssa.Function) bool {
+	if fn == nil {
+		return false
+	}
+	for _, b := range fn.Blocks {
+		for _, ins := range b.Instrs {
+			if c, ok := ins.(ssa.CallInstruction); ok {
+				if bi, ok := c.Common().Value.(*ssa.Builtin); ok && bi.Name() == "recover" {
+					return true
+				}
+			}
+		}
+	}
+	return false
 }
